@@ -52,6 +52,8 @@ import copy
 import zlib
 from typing import Dict, Iterable, List, Optional, Sequence, Set, Tuple
 
+from . import canon_flow
+
 NORETURN_DEFAULT = {"fail", "failer", "_attr_type_error", "invalid"}
 
 PURE_BUILTINS = {"len", "int", "str", "float", "bool", "isinstance", "type", "id", "tuple", "list", "abs", "min", "max", "repr", "range", "reversed", "sorted", "enumerate", "zip", "getattr", "hasattr", "width"}
@@ -701,6 +703,20 @@ def propagate_temporaries(fn: ast.AST, keep: Set[str]) -> int:
                             changed += 1
                             did = True
                             continue
+                    # (b') bound on several branches, each binding used once, in the directly following statement
+                    elif nm not in keep and cnt.get(nm, 0) > 1 and not nm.startswith("__") and _uses(fn, nm) == cnt[nm]:
+                        sites = [(b2, k) for b2 in _blocks_of(fn) for k, s2 in enumerate(b2)
+                                 if isinstance(s2, ast.Assign) and len(s2.targets) == 1 and isinstance(s2.targets[0], ast.Name) and s2.targets[0].id == nm]
+                        if len(sites) == cnt[nm] and all(k + 1 < len(b2) and nm not in _names(b2[k].value) and _first_evaluated_use(b2[k + 1], nm) for b2, k in sites):
+                            for b2, k in sorted(sites, key=lambda t: -t[1]):
+                                _Subst(nm, b2[k].value).visit(b2[k + 1])
+                            for b2, k in sites:
+                                tgt = [x for x in b2 if isinstance(x, ast.Assign) and len(x.targets) == 1 and isinstance(x.targets[0], ast.Name) and x.targets[0].id == nm]
+                                for x in tgt:
+                                    b2.remove(x)
+                            changed += 1
+                            did = True
+                            break
                 i += 1
         if not did:
             break
@@ -1038,6 +1054,22 @@ def inline_helpers(fn: ast.FunctionDef, helpers: Dict[str, Tuple[ast.FunctionDef
                     if r is not None and not any(isinstance(n, (ast.Yield, ast.YieldFrom, ast.Await, ast.Global, ast.Nonlocal)) for s in body for n in ast.walk(s)):
                         subst, pre = r
                         body = [_ParamSubst(subst).visit(s) for s in body]
+                        # capture: a name the helper binds (its locals, rebound parameters, the parameter temporaries in
+                        # `pre`) that the caller still reads after this statement gets a private name in the copy
+                        bound_h = set(_stores(hdef)) - {a_.arg for a_ in ast.walk(hdef.args) if isinstance(a_, ast.arg) and a_.arg not in {t.targets[0].id for t in pre} and _stores(hdef).get(a_.arg, 0) <= 1}
+                        bound_h -= {(al.asname or al.name).split(".")[0] for n_ in ast.walk(hdef) if isinstance(n_, (ast.Import, ast.ImportFrom)) for al in n_.names}
+                        tgt_names = {n_.id for t in (st.targets if mode == "assign" else []) for n_ in ast.walk(t) if isinstance(n_, ast.Name)}
+                        clash = sorted(nm_ for nm_ in bound_h if nm_ not in tgt_names and canon_flow.live_after(fn, blk, i, nm_, canon.noreturn))
+                        if clash:
+                            ren = {nm_: f"{nm_}_{hdef.name.strip('_')}" for nm_ in clash}
+                            arg_uses = {nm_ for t in pre for nm_ in _names(t.value)}
+                            for s_ in body:
+                                for n_ in ast.walk(s_):
+                                    if isinstance(n_, ast.Name) and n_.id in ren:
+                                        n_.id = ren[n_.id]
+                            for t in pre:
+                                if t.targets[0].id in ren:
+                                    t.targets[0].id = ren[t.targets[0].id]
                         if mode == "return":
                             new = body  # every `return e` of the helper returns from the caller just the same
                             if not _terminates(new, canon.noreturn):
@@ -1358,12 +1390,14 @@ def canonicalise(tree: ast.Module, ref_funcs: Optional[Set[str]], ref_consts: Op
         if ".<locals>." in q:
             continue
         params = {a.arg for a in ast.walk(fn.args) if isinstance(a, ast.arg)}
-        for _k in range(3):
+        for _k in range(4):
             a = _loops_to_comprehensions(fn)
             b = propagate_temporaries(fn, keep=params)
+            c = canon_flow.run(fn, canon.noreturn)
             stats["comprehensions"] += a
             stats["temporaries"] += b
-            if not (a or b):
+            stats["flow"] = stats.get("flow", 0) + c
+            if not (a or b or c):
                 break
             fn.body = canon.function_body(fn.body)
         ast.fix_missing_locations(fn)
